@@ -249,6 +249,63 @@ func TestC19(t *testing.T) {
 				}
 			}
 		}
+		// invariant, evaluated at every quiescent step: whatever index the resume file names, every
+		// entry up to and including it has been extracted completely (a process killed at that very
+		// instant and restarted would skip them)
+		entryIndex := map[string]int{}
+		{
+			zr, err := stdzip.NewReader(bytes.NewReader(zb), int64(len(zb)))
+			Must(err, "stdlib zip reader")
+			for i, f := range zr.File {
+				entryIndex[strings.TrimSuffix(f.Name, "/")] = i
+			}
+		}
+		entryName := make([]string, len(kinds))
+		for n, i := range entryIndex {
+			entryName[i] = n
+		}
+		verified := -1 // every entry up to here was found complete on disk when the resume file first named it
+		s.Invariant = func(step int) string {
+			b, err := os.ReadFile(resume)
+			if err != nil || len(b) == 0 {
+				return ""
+			}
+			r, perr := strconv.ParseInt(string(b), 10, 64)
+			if perr != nil {
+				return ""
+			}
+			if int(r) >= len(kinds) {
+				return fmt.Sprintf("resume file reads %q, the archive has %d entries", string(b), len(kinds))
+			}
+			for i := verified + 1; i <= int(r); i++ {
+				want, ok := tree[entryName[i]]
+				if !ok {
+					continue
+				}
+				full := filepath.Join(out, filepath.FromSlash(entryName[i]))
+				fi, err := os.Lstat(full)
+				bad := ""
+				switch {
+				case err != nil:
+					bad = "is not there"
+				case want.Kind == KDir && !fi.IsDir():
+					bad = "is not a directory"
+				case want.Kind == KLink:
+					if d, lerr := os.Readlink(full); lerr != nil || d != want.Dest {
+						bad = "is not the symlink it should be"
+					}
+				case want.Kind == KFile:
+					if got, rerr := os.ReadFile(full); rerr != nil || !bytes.Equal(got, want.Data) {
+						bad = fmt.Sprintf("is incomplete (%d of %d bytes)", len(got), len(want.Data))
+					}
+				}
+				if bad != "" {
+					return fmt.Sprintf("resume file reads %q but entry %d (%s) %s", string(b), i, entryName[i], bad)
+				}
+				verified = i
+			}
+			return ""
+		}
 		s.Run(t, func() {
 			res, xerr = archiver.ExtractZip(ra, int64(len(zb)), out, archiver.ExtractSettings{
 				Consumer: cons, Concurrency: conc, ResumeFrom: resume,
@@ -265,6 +322,10 @@ func TestC19(t *testing.T) {
 			return
 		}
 		setup := fmt.Sprintf("%d entries, concurrency %d, crash snapshot at step %d, tear mode %d, policy %d", len(kinds), conc, crashAt, tearMode, spec.Policy)
+		if s.InvariantFail != "" {
+			Violation(rt, "C19/resume-index-ahead", "%s (%s)\nschedule tail:\n%s", s.InvariantFail, setup, joinLines(tail(s.Log, 30), 30))
+			return
+		}
 		if s.Stuck || s.Panic != "" {
 			Violation(rt, "C19/extract-stuck-or-panic", "ExtractZip: stuck=%v panic=%s (%s)\n%s", s.Stuck, s.Panic, setup, s.StuckStacks)
 			return
